@@ -11,7 +11,9 @@ run() { # <label> <prop> <patch>
   local label=$1 prop=$2 patch=$(realpath "$3")
   if ! git -C /repo apply --check "$patch" 2>/dev/null; then echo "SKIP  $label ($prop): patch does not apply"; return; fi
   git -C /repo apply "$patch"
+  [ -f "evidence/$prop.json" ] && cp "evidence/$prop.json" "/var/tmp/selftest-evidence.$$"
   out=$(bin/govc check "$prop" 2>&1); rc=$?
+  [ -f "/var/tmp/selftest-evidence.$$" ] && mv "/var/tmp/selftest-evidence.$$" "evidence/$prop.json"   # evidence comes from clean runs only
   git -C /repo checkout -q -- . ; git -C /repo clean -fdq
   n=$(echo "$out" | grep -c '^VIOLATION')
   if [ $rc -eq 1 ] && [ "$n" -gt 0 ]; then
